@@ -4703,6 +4703,99 @@ def replay_sarif_across_files(a):
         shutil.rmtree(d, ignore_errors=True)
 
 
+def rules_files_all_evaluated(a):
+    """C12 / C07 (`every (rules file, data file) pair given is evaluated and reported, whatever the other pairs are`): validate collects the
+    --rules files into a list and (a) Validate::execute only ever creates that list and pushes onto it - it never removes, de-duplicates,
+    truncates or re-keys entries - and (b) the --structured path's get_rule_info fold pushes EVERY file it read onto its accumulator
+    (one unconditional push of that very file, nothing else consulted) or returns the read error."""
+    # (a) site enumeration over the Vec<PathBuf> methods used by Validate::execute
+    try:
+        top = mirsmt.find_fn(a.mir, r"(?:commands::validate::)?<impl at guard/src/commands/validate\.rs:\d+:\d+: \d+:\d+>::execute", r"_1: &(?:commands::validate::)?Validate")
+    except Untranslatable:
+        top = None
+    if top is None:
+        a.ob.items.append({"obligation": "Validate::execute/rules-list-only-grows", "describe": "Validate::execute not found", "verdicts": {}, "status": "inconclusive", "model": None})
+    else:
+        used = sorted(set(re.findall(r"= (?:std::vec::)?Vec::<(?:std::path::)?PathBuf>::(\w+)", top) + re.findall(r"(?:core::)?slice::<impl \[(?:std::path::)?PathBuf\]>::(\w+)", top)))
+        extra = [u for u in used if u not in ("new", "push", "with_capacity", "iter", "len", "is_empty", "as_slice")]
+        a.ob.check("Validate::execute/rules-list-only-grows", [], [], "true" if extra else "false",
+                   f"Validate::execute: the lists of --rules / --data paths are only created and pushed onto (Vec<PathBuf> methods used: {used}); none of "
+                   f"dedup / retain / truncate / remove / drain / sort+dedup is applied to them - found: {extra} (site enumeration; degenerate solver part)")
+        item = a.ob.items[-1]
+        item["paths"], item["cut_by_unroll_bound"], item["unroll"] = max(1, len(used)), 0, 0
+        if not used:
+            item["status"] = "inconclusive"
+        if item["status"] == "refuted":
+            item["replay"] = replay_same_basename_rules(a)
+            item["reproduced"] = item["replay"].get("reproduced", False)
+            a.candidates.append(item)
+    a.fns.append("commands::validate::Validate::execute (rules list) + get_rule_info::{closure#1}")
+    # (b) the fold step of get_rule_info
+    def m_branch(ex, av):
+        # `?` on the (opaque) Result argument: Continue(its Ok payload) exactly when it is Ok
+        v = av[0] if av else None
+        if v is not None and v[0] == "opaque":
+            return ("enum", "ControlFlow", disc(ex, v), {"Continue": payload(ex, v, "Ok"), "Break": ("enum", "Result", "1", {"Err": payload(ex, v, "Err")})})
+        return mirexec.COMMON_MODELS["branch"](ex, av)
+    ex = a.exec(r"(?:commands::validate::)?get_rule_info::\{closure#1\}", {"write_err": mirexec.m_result_unit, "format": lambda ex, av: ex.opq(), "must_use": mirexec.m_identity, "branch": m_branch},
+                log=("*",), unroll=1, max_paths=400, deepen=False)
+    acc, item_ = ex.arg_env["_2"], ex.arg_env["_3"]
+    tag = disc(ex, item_)
+    bad, n = [], 0
+    for p in ex.paths:
+        r = p.ret
+        if p.outcome != "return" or not r or r[0] != "enum":
+            bad.append(pc_term(p.pc))
+            continue
+        n += 1
+        pushes = calls(p, "push")
+        other = [e[1] for e in p.events if e[0] == "call" and e[1] in ("any", "all", "contains", "iter", "position", "find", "eq", "ne", "retain", "dedup", "dedup_by_key", "binary_search")]
+        okpush = (len(pushes) == 1 and same(pushes[0][2][0], acc) and same(pushes[0][2][1], payload(ex, item_, "Ok")) and not other
+                  and r[3].get("Ok") is not None and same(r[3]["Ok"], acc))
+        good = f"(ite (= {tag} 0) (and (= {r[2]} 0) {'true' if okpush else 'false'}) (and (= {r[2]} 1) {'true' if not pushes else 'false'}))"
+        bad.append(f"(and {pc_term(p.pc)} (not {good}))")
+    c = a.discharge("get_rule_info/every-file-read-is-kept", ex, bad,
+                    f"get_rule_info, one rules file ({n} paths): a file that was read is pushed - unconditionally, as it is - onto the accumulator, which is "
+                    "returned; a read error is returned as an error; no comparison with the files already collected")
+    if c:
+        c["replay"] = replay_same_basename_rules(a)
+        c["reproduced"] = c["replay"].get("reproduced", False)
+        a.candidates.append(c)
+
+
+def replay_same_basename_rules(a):
+    """rules files with the same base name in different directories (team_a/bucket.guard, team_b/bucket.guard), given as files, in several
+    orders, and through their common directory; console and every structured format: exit code 19 (one of them FAILs) and both files'
+    rules reported"""
+    import os, shutil, subprocess, tempfile, json as _json
+    exe = a.cli()
+    if not exe:
+        return {"reproduced": False, "note": "native build failed"}
+    d = tempfile.mkdtemp(prefix="cfnverif_replay_")
+    out = []
+    try:
+        for sub, text in (("team_a", "rule a_ok { a == 1 }\n"), ("team_b", "rule b_bad { a == 2 }\n"), ("other", "rule z_ok { a == 1 }\n")):
+            os.makedirs(os.path.join(d, "rules", sub))
+            open(os.path.join(d, "rules", sub, "bucket.guard" if sub != "other" else "zzz.guard"), "w").write(text)
+        open(os.path.join(d, "d.json"), "w").write('{"a": 1}\n')
+        A, B, Z = (os.path.join(d, "rules", x) for x in ("team_a/bucket.guard", "team_b/bucket.guard", "other/zzz.guard"))
+        for label, rules in (("a b", [A, B]), ("b a", [B, A]), ("z a b", [Z, A, B]), ("a z b", [A, Z, B]), ("directory", [os.path.join(d, "rules")])):
+            base = [exe, "validate", "-d", os.path.join(d, "d.json")]
+            for r_ in rules:
+                base += ["-r", r_]
+            pc = subprocess.run(base + ["--show-summary", "all"], capture_output=True, text=True, timeout=60)
+            if pc.returncode != 19 or "b_bad" not in pc.stdout or "a_ok" not in pc.stdout:
+                out.append({"rules": label, "mode": "console", "exit": pc.returncode, "b_bad_reported": "b_bad" in pc.stdout, "a_ok_reported": "a_ok" in pc.stdout})
+            for fmt in ("json", "yaml", "junit", "sarif"):
+                ps = subprocess.run(base + ["--structured", "-o", fmt, "--show-summary", "none"], capture_output=True, text=True, timeout=60)
+                seen = ("b_bad" in ps.stdout or "B_BAD" in ps.stdout) if fmt != "sarif" else ('"ruleId"' in ps.stdout)
+                if ps.returncode != 19 or not seen:
+                    out.append({"rules": label, "mode": "--structured -o " + fmt, "exit": ps.returncode, "failing_rule_reported": seen})
+        return {"reproduced": bool(out), "mismatches": out[:5]}
+    finally:
+        shutil.rmtree(d, ignore_errors=True)
+
+
 def junit_escaping_sites(a):
     """C07 (`the structured JUnit output lets the same marks be read as the JSON output`): a JUnit document can only be read if it is
     well-formed XML, i.e. if every name / message / path written into it went through quick-xml's escaping. quick-xml escapes an
@@ -4803,8 +4896,8 @@ def replay_junit_wellformed(a):
 
 SITES = {
     "C06": [structured_report, structured_parse_closure, junit_exit_code, junit_test_case, junit_report, validate_execute_step, test_generic_report, test_result_exit_code, test_exit_code_domain, test_structured_evaluate],
-    "C12": [sarif_per_file_results, structured_report, junit_test_case, junit_report, data_input_wiring, data_input_params_wiring, structured_merge_closure, test_get_by_result, test_structured_evaluate, report_combine_union],
-    "C07": [flags_verdict_wiring, reporter_chain, library_entry_wiring, sarif_one_result_per_message, sarif_per_file_results, junit_escaping_sites, report_combine_union, structured_report, junit_test_case, junit_report, validate_execute_step,
+    "C12": [rules_files_all_evaluated, sarif_per_file_results, structured_report, junit_test_case, junit_report, data_input_wiring, data_input_params_wiring, structured_merge_closure, test_get_by_result, test_structured_evaluate, report_combine_union],
+    "C07": [flags_verdict_wiring, reporter_chain, library_entry_wiring, sarif_one_result_per_message, sarif_per_file_results, rules_files_all_evaluated, junit_escaping_sites, report_combine_union, structured_report, junit_test_case, junit_report, validate_execute_step,
             data_input_params_wiring, structured_merge_closure],
     "C16": [test_generic_report, test_get_by_result, test_get_by_rules, test_structured_evaluate, test_result_exit_code, test_junit_counts, test_junit_case_marks, test_data_per_spec],
     "C02": [param_ctx_end_record, scope_delegations, param_rule_call, rule_status_semantics],
